@@ -139,7 +139,12 @@ def main(tier, only=None):
                             f.seek(blk * 1024 + 1023); f.write(b'\x00')
                     imgs.append(p)
     if 'B1' in parts:
-        res = pmap(run_diff, [(exe_s, p, 16) for p in imgs], chunksize=2)
+        # one filesystem with more than 2^32 blocks (64 KiB blocks, 153600 groups, sparse 600 TB file; a second thread already starts beyond bit 2^32): group -> bit position arithmetic beyond 32 bits
+        huge = os.path.join(sc, 'b_huge64k.img')
+        rc, out = run([tool('mke2fs'), '-q', '-F', '-t', 'ext4', '-b', '65536', '-O', '64bit,^has_journal,^resize_inode,sparse_super2', '-E', 'num_backup_sb=0,lazy_itable_init=1,nodiscard', '-N', '20000', huge, '600T'], timeout=120)
+        hugejobs = [(exe_s, huge, 4 if quick else 9)] if rc == 0 and os.path.exists(huge) else []
+        res = pmap(run_diff, hugejobs + [(exe_s, p, 16) for p in imgs], chunksize=1)
+        if os.path.exists(huge): os.unlink(huge)
         runs = thr = 0
         for img, rc, viol, summ, err, dt in res:
             name = os.path.basename(img)
@@ -150,7 +155,7 @@ def main(tier, only=None):
             runs += summ['runs']; thr += summ['runs_that_created_threads']
         ck.add(evaluations=runs, transitions=runs, traces_validated_against_impl=runs, states=len(imgs))
         ck.part('B1_partition_differential', images=len(imgs), loads_compared=runs, loads_that_really_ran_threads=thr,
-                rule='every image x thread count 2..16 x {block,inode,both}: bitmaps, tail flags and return code equal the single-threaded load')
+                rule='every image x thread count 2..16 x {block,inode,both}: bitmaps, tail flags and return code equal the single-threaded load; plus one 2^32+ block filesystem (64 KiB blocks, 153600 groups) x thread count 2..4 (thorough ..9)')
         if thr == 0:
             ck.violation('B1:vacuous', {'what': 'no load took the threaded path'})
     if 'B2' in parts:
